@@ -1,6 +1,7 @@
 package store
 
 import (
+	"database/sql"
 	"context"
 	"fmt"
 	"math/rand"
@@ -505,3 +506,16 @@ func (k *l1Kind) hashPools() (live, dead []common.Hash) {
 }
 
 var l1Deny = map[string]bool{"Start": true}
+
+func (k *l1Kind) kindSeed() int64     { return k.seed }
+func (k *l1Kind) setSeed(s int64)     { k.seed = s }
+func (k *l1Kind) workDir() string     { return k.dir }
+
+// prepare records what process would have recorded about the block, without processing it (the block is processed by a child process).
+func (k *l1Kind) prepare(op Op) {
+	blk, rec := k.build(op)
+	k.lastRec = rec
+	k.lastRec.events = cloneL1Events(blk.Events)
+}
+
+func (k *l1Kind) pool() *sql.DB { return k.node.VerifDB() }
